@@ -23,6 +23,9 @@ func (m MetaData) CopyNew() *MetaData {
 }
 
 func (m *MetaData) Equal(other *MetaData) (res bool) {
+	if m == nil || other == nil {
+		return m == other
+	}
 	return m.PlaintextMetaData.Equal(&other.PlaintextMetaData) && m.CiphertextMetaData.Equal(&other.CiphertextMetaData)
 }
 
